@@ -69,18 +69,15 @@ def separators_ok(st, lines, so):
         elif l[0] == "structure": structs.append(l[3])
     groups = structs if so else [[s] for s in order]
     runs = [(m.start(), m.end()) for m in re.finditer(r"[^ ]+", st)]
-    want = [strands[s] for g in groups for s in g]
-    if [b - a for a, b in runs] != want:
-        return "nucleotide runs %r do not match the strands %r" % ([b - a for a, b in runs][:8], want[:8])
-    k = 0
-    for gi, g in enumerate(groups):
-        for si, s in enumerate(g):
-            if k > 0:
-                gap = runs[k][0] - runs[k - 1][1]
-                need = 2 if si == 0 else 1
-                if gap < need:
-                    return "only %d blank(s) before run %d (need %d)" % (gap, k, need)
-            k += 1
+    # an empty strand has no nucleotides: it contributes no run (and no requirement of its own)
+    want = [(gi, strands[s]) for gi, g in enumerate(groups) for s in g if strands[s] > 0]
+    if [b - a for a, b in runs] != [l for _, l in want]:
+        return "nucleotide runs %r do not match the strands %r" % ([b - a for a, b in runs][:8], [l for _, l in want][:8])
+    for k in range(1, len(runs)):
+        gap = runs[k][0] - runs[k - 1][1]
+        need = 2 if want[k][0] != want[k - 1][0] else 1
+        if gap < need:
+            return "only %d blank(s) before run %d (need %d)" % (gap, k, need)
     return None
 
 def run(tier, seed, build):
